@@ -35,7 +35,7 @@ class Identity(Transformer):
     def inverse_transform(self, Xt):
         """Returns the identity."""
         if self.type_func:
-            return [self.type_func(Xt[0])]
+            return [self.type_func(x) for x in Xt]
         else:
             return Xt
 
